@@ -21,6 +21,22 @@ type call struct {
 	Cache     string  `json:"cache,omitempty"`
 	Opts      expOpts `json:"opts"`
 	EmptyBase bool    `json:"empty_base,omitempty"` // non-nil options whose RelativeBase is the empty string
+	RefJSON   bool    `json:"ref_from_json,omitempty"` // resolvers: the reference is decoded from {"$ref": elem} instead of built with MustCreateRef
+}
+
+type refRefused struct{ err error }
+
+// mkRef builds the reference of a resolver call: with the constructor, or the way a document decoder does.
+func mkRef(cl call) spec.Ref {
+	if !cl.RefJSON {
+		return spec.MustCreateRef(cl.Elem)
+	}
+	b, _ := json.Marshal(map[string]string{"$ref": cl.Elem})
+	var r spec.Ref
+	if err := json.Unmarshal(b, &r); err != nil {
+		panic(refRefused{err}) // the library's business: reported as the error of the call
+	}
+	return r
 }
 
 type callResult struct {
@@ -167,6 +183,10 @@ func doCall(cs *expCase, cl call, cache spec.ResolutionCache, budget int) (r cal
 				if hb, ok := p.(harnessBug); ok {
 					panic(hb)
 				}
+				if rr, ok := p.(refRefused); ok {
+					err = fmt.Errorf("the decoder refused the $ref value %q: %w", cl.Elem, rr.err)
+					return
+				}
 				r.Panic = fmt.Sprint(p)
 			}
 		}()
@@ -209,23 +229,23 @@ func doCall(cs *expCase, cl call, cache spec.ResolutionCache, budget int) (r cal
 			err = spec.ExpandResponse(p, cs.Root)
 			out = p
 		case "ResolveRefWithBase":
-			ref := spec.MustCreateRef(cl.Elem)
+			ref := mkRef(cl)
 			out, err = spec.ResolveRefWithBase(root, &ref, opts)
 		case "ResolveRef":
-			ref := spec.MustCreateRef(cl.Elem)
+			ref := mkRef(cl)
 			out, err = spec.ResolveRef(root, &ref)
 		case "ResolveParameterWithBase":
-			out, err = spec.ResolveParameterWithBase(root, spec.MustCreateRef(cl.Elem), opts)
+			out, err = spec.ResolveParameterWithBase(root, mkRef(cl), opts)
 		case "ResolveParameter":
-			out, err = spec.ResolveParameter(root, spec.MustCreateRef(cl.Elem))
+			out, err = spec.ResolveParameter(root, mkRef(cl))
 		case "ResolveResponseWithBase":
-			out, err = spec.ResolveResponseWithBase(root, spec.MustCreateRef(cl.Elem), opts)
+			out, err = spec.ResolveResponseWithBase(root, mkRef(cl), opts)
 		case "ResolveResponse":
-			out, err = spec.ResolveResponse(root, spec.MustCreateRef(cl.Elem))
+			out, err = spec.ResolveResponse(root, mkRef(cl))
 		case "ResolvePathItemWithBase":
-			out, err = spec.ResolvePathItemWithBase(root, spec.MustCreateRef(cl.Elem), opts)
+			out, err = spec.ResolvePathItemWithBase(root, mkRef(cl), opts)
 		case "ResolveItemsWithBase":
-			out, err = spec.ResolveItemsWithBase(root, spec.MustCreateRef(cl.Elem), opts)
+			out, err = spec.ResolveItemsWithBase(root, mkRef(cl), opts)
 		default:
 			panic("unknown entry point " + cl.Fn)
 		}
